@@ -137,18 +137,19 @@ type Outcome struct {
 
 // Result is everything observed in one run.
 type Result struct {
-	Scenario    *Scenario
-	Outcomes    []Outcome // in arrival order per channel: successes first then errors (order across channels is not observable)
-	SyncReturns []Outcome // Sync scenarios: what SendMessages reported per message
-	CloseOK     bool      // Close()/channel closure completed within the bound
-	ChansClosed bool
-	Events      []Ev
-	IcCalls     []IcCall
-	Requests    []ReqLog
-	Logs        map[string][]Appended
-	HeldReached []bool
-	SetupErr    string
-	Wall        time.Duration
+	Scenario     *Scenario
+	Outcomes     []Outcome // in arrival order per channel: successes first then errors (order across channels is not observable)
+	SyncReturns  []Outcome // Sync scenarios: what SendMessages reported per message
+	CloseOK      bool      // Close()/channel closure completed within the bound
+	InputBlocked bool      // a send on Input() did not complete within 3 s (the pipeline is stuck)
+	ChansClosed  bool
+	Events       []Ev
+	IcCalls      []IcCall
+	Requests     []ReqLog
+	Logs         map[string][]Appended
+	HeldReached  []bool
+	SetupErr     string
+	Wall         time.Duration
 }
 
 func (sc *Scenario) Config() *sarama.Config {
@@ -341,7 +342,10 @@ func Run(sc *Scenario) *Result {
 			sub := make(chan struct{})
 			go func() {
 				for _, m := range wave {
-					prod.Input() <- m
+					if !submit(prod, m) {
+						res.InputBlocked = true
+						break
+					}
 				}
 				close(sub)
 			}()
@@ -353,7 +357,10 @@ func Run(sc *Scenario) *Result {
 			<-sub
 		} else {
 			for _, m := range wave {
-				prod.Input() <- m
+				if !submit(prod, m) {
+					res.InputBlocked = true
+					break
+				}
 			}
 		}
 		if w > 0 && w-1 < len(gates) {
@@ -447,4 +454,14 @@ func ChaserAsMessage(evs []Ev) bool {
 		}
 	}
 	return false
+}
+
+// submit sends on Input() with a bound: a stuck pipeline must not hang the harness.
+func submit(p sarama.AsyncProducer, m *sarama.ProducerMessage) bool {
+	select {
+	case p.Input() <- m:
+		return true
+	case <-time.After(3 * time.Second):
+		return false
+	}
 }
